@@ -4,7 +4,8 @@
    overflow is an error, under-fill is silent), EncodeSW (into the caller's writer).  Definitions only.
    Mirrors /repo after the fix commits ecf1460 and 0b086ee (AddSample keeps one SubSamples entry per sample and
    refuses a sample without IV after samples with IVs; `senc_add_pinned` is the text before them) and 954ff09
-   (a decoded box without samples writes its rawData back; `senc_body_pinned` is the text before it).
+   (a decoded box without samples writes its rawData back; `senc_body_pinned` is the text before it) and 4cf4f8b
+   (ParseReadBox without sub-samples refuses left-over bytes; `senc_parse_pinned` is the text before it).
    Second part: the decoders DecodeSenc / DecodeSencSR (`senc_decode`) and the second decoding phase ParseReadBox /
    parseAndFillSamples (`senc_parse`), i.e. every SencBox state the decoders produce. *)
 From V.lib Require Import Base.
@@ -216,7 +217,7 @@ Fixpoint rd_ivs (n : nat) (piv : nat) (d : list N) : list (list N) :=
 (* ParseReadBox(perSampleIVSize, saiz): the state afterwards and whether an error is returned.  nrBytesLeft is a
    uint32 and the inferred size a byte (the division cannot be by zero: a box with SampleCount 0 is never
    readButNotParsed after decoding; a hand-made one panics) *)
-Definition senc_parse (s : senc) (piv0 : N) : senc * res unit :=
+Definition senc_parse_gen (fixed : bool) (s : senc) (piv0 : N) : senc * res unit :=
   if negb (sn_np s) then (s, Err)                                     (* senc box already parsed *)
   else
     let s0 := if piv0 =? 0 then s else sn_with_iv s piv0 (sn_ivs s) in
@@ -226,7 +227,8 @@ Definition senc_parse (s : senc) (piv0 : N) : senc * res unit :=
       else
         let piv := if piv0 =? 0 then u8 (left / sn_count s) else piv0 in
         let s1 := sn_with_iv s0 piv (sn_ivs s0) in
-        if left <? piv * sn_count s then (s1, Err)
+        (* repo commit 4cf4f8b: the IVs must fill the data exactly (`!=`); before it only `>` was refused *)
+        if (if fixed then negb (piv * sn_count s =? left) else left <? piv * sn_count s) then (s1, Err)
         else
           if piv =? 0 then (sn_parsed (sn_with_iv s1 piv []), Ok tt)
           else if (piv =? 8) || (piv =? 16) then
@@ -242,3 +244,5 @@ Definition senc_parse (s : senc) (piv0 : N) : senc * res unit :=
            if ok2 then (sn_parsed s2, Ok tt)
            else let '(s3, ok3) := senc_fill s2 16 in
                 if ok3 then (sn_parsed s3, Ok tt) else (s3, Err).
+Definition senc_parse := senc_parse_gen true.
+Definition senc_parse_pinned := senc_parse_gen false.
